@@ -8,11 +8,11 @@ from .lib_c01 import (VALUE_PRESERVING, access_path, always_err_try_edges, bool_
                       enum_switches, ok_return_blocks, option_edges, outermost_fn, resolve_path, sources, Renamed, PRE_FIX_F3_EDITS)
 
 LEVEL = "other"
-TECHNIQUE = ("static analysis: dominance of router.insert by the three validations' Continue edges, decision tables read off the MIR switches of HttpRouter::insert "
-             "(segment kind x existing edge kind), ADT shape facts, exhaustive interpretation of validate_tags over its finite input shapes, guard/propagation tables of the parameter validators, "
+TECHNIQUE = ("static analysis: dominance of router.insert by the Ok edges of the three validations' results (on the combinator-normalised MIR), decision tables read off the MIR switches of HttpRouter::insert "
+             "(segment kind x existing edge kind), ADT shape facts, exhaustive interpretation of validate_tags over its finite input shapes, set/map comprehension tables and path conditions (metadata variant x name-is-a-path-variable x kind x type-check outcome on every way of accepting a parameter) of the parameter validators, "
              "path facts on the single-alternative length test and value-source census of the subschema scalar check, and (re-evaluated from C05) the exact overlap table")
-LEVEL_TEXT = ("Decides on every path of the type-checked MIR of the current tree: (R1) the only caller of HttpRouter::insert is _register, which reaches it only through the Continue edges of "
-              "validate_tags?, validate_path_parameters?, validate_named_parameters? applied to the same endpoint, and register propagates its Err; (R2) the 3x3 table "
+LEVEL_TEXT = ("Decides on every path of the type-checked MIR of the current tree: (R1) the only caller of HttpRouter::insert is _register, which reaches it only through the Ok edges of the results of "
+              "validate_tags, validate_path_parameters, validate_named_parameters (`?`, match, or an and_then chain) applied to the same endpoint, and register propagates its Err; (R2) the 3x3 table "
               "segment kind x existing edge kind = same kind descends / other kinds panic, differently named variable at the same position panics, a repeated variable name panics "
               "(insert_var on one per-call set), segments after a wildcard panic; (R3) a node holds Option<one of Literals(map) | VariableSingle(name, child) | VariableRest(name, child)> "
               "and one handler list per method, so mixed kinds / two names per position are unrepresentable, and edges are only created by insert; (R4) the per-method loop panics iff "
@@ -29,11 +29,13 @@ LEVEL_NOTE = ("Trusts rustc MIR construction, the extractor, engine dominators/s
 EXPLANATION = ("Rules over the MIR of api_description::ApiDescription::{register, register::_register, validate_tags, validate_path_parameters, validate_named_parameters} and "
                "router::{HttpRouter::insert, insert_var} and type_util::type_is_scalar_subschemas extracted from the current tree: PASS/DOM on the pruned CFG, TABLE extraction from discriminant switches with access-path provenance of "
                "the compared operands, SHAPE facts from the ADT tables, DECIDE by abstract interpretation for validate_tags (all finite input shapes, tag counts 0..3) and for overlaps_with "
-               "(all weak orders). The rules are written over roles, not spellings: a validation's result may be split by `?`, match or if-let (and the three calls may sit in an inlined private helper - "
-               "feasibility of paths is then decided with the variant of the returned Result propagated); the overlap test may be a loop or an iter().find/position/any search over the list that is pushed to; "
+               "(all weak orders). The rules are written over roles, not spellings: a validation's result may be split by `?`, match or if-let or be chained with and_then (R1 reads the normalised view in which Option/Result combinators "
+               "are the matches they abbreviate), and the three calls may sit in an inlined private helper - feasibility of paths is then decided with the variant of the returned Result propagated; "
+               "the per-parameter dispatch of validate_named_parameters is read as path conditions, so nested matches, one flat match on a tuple, or-patterns, and contains_key / get(..).is_some() / match get(..) "
+               "are the same table; the overlap test may be a loop or an iter().find/position/any search over the list that is pushed to; "
                "sets and maps of template variables may be built by filter_map + collect or by a loop with insert, with arms merged by or-patterns; validate_tags is interpreted with std's "
                "find/any/all/position/filter summarised, so a for loop with early return and an Iterator::find are the same function to the check.")
-TRUSTED = ["rustc nightly MIR construction + const evaluation", "mirfacts extractor", "rules/engine.py, rules/lib_c01.py, rules/absint.py", "std collections semantics", "std Iterator::{find, position, any, all, filter, count} semantics (summarised for the interpretation of validate_tags and for the overlap search)",
+TRUSTED = ["rustc nightly MIR construction + const evaluation", "mirfacts extractor", "rules/engine.py (incl. the combinator normalisation of ctx.dsn), rules/lib_c01.py, rules/lib_c02.py, rules/absint.py", "std collections semantics", "std Iterator::{find, position, any, all, filter, count} semantics (summarised for the interpretation of validate_tags and for the overlap search)",
            "semver::Version PartialOrd (total order)", "type_util::type_is_scalar / type_is_string_enum (schemars-level, unit-tested upstream)"]
 
 VP = VALUE_PRESERVING
@@ -731,7 +733,9 @@ def _vnp_rules(ctx, R):
             b, f = bad[0]
             d = "%s can be accepted without %s having returned Ok: a path with facts %s (checks passed: %s) goes on to %s" % (
                 what, want, show_facts({k: v for k, v in f.items() if isinstance(k, str)}), passed(f) or "none", "the next parameter" if b == nbb else "Ok(())")
-        ctx.check(R, key, not bad, d, (vnp, bad[0][0] if bad else nbb))
+        if not acc:
+            d = "%s is never accepted (no path of the loop body compatible with this case reaches the next parameter): the analysis found no such path" % what
+        ctx.check(R, key, bool(acc) and not bad, d, (vnp, bad[0][0] if bad else nbb))
     for var in ("Path", "Query"):
         acc = [(b, f) for b, f in accepting if compatible(f, {"metadata": var})]
         bad = [(b, f) for b, f in acc if not passed(f)]
@@ -1205,6 +1209,73 @@ _CONTAINS_PANIC = ('    if varnames.contains(new_varname) {\n'
                    '        );\n'
                    '    }\n')
 
+_VNP_DISPATCH = ('            match &param.metadata {\n'
+                 '                ApiEndpointParameterMetadata::Path(ref name) => {\n'
+                 '                    match path_segments.get(name) {\n'
+                 '                        Some(SegmentOrWildcard::Segment) => {\n'
+                 '                            type_is_scalar(\n'
+                 '                                &e.operation_id,\n'
+                 '                                name,\n'
+                 '                                schema,\n'
+                 '                                dependencies,\n'
+                 '                            )?;\n'
+                 '                        }\n'
+                 '                        Some(SegmentOrWildcard::Wildcard) => {\n'
+                 '                            type_is_string_enum(\n'
+                 '                                &e.operation_id,\n'
+                 '                                name,\n'
+                 '                                schema,\n'
+                 '                                dependencies,\n'
+                 '                            )?;\n'
+                 '                        }\n'
+                 '                        None => {\n'
+                 '                            panic!("all path variables should be accounted for")\n'
+                 '                        }\n'
+                 '                    }\n'
+                 '                }\n'
+                 '                ApiEndpointParameterMetadata::Query(ref name) => {\n'
+                 '                    if path_segments.contains_key(name) {\n'
+                 '                        return Err(format!(\n'
+                 '                            "the parameter \'{}\' is specified for both query \\\n'
+                 '                             and path parameters",\n'
+                 '                            name\n'
+                 '                        ));\n'
+                 '                    }\n'
+                 '                    type_is_scalar(\n'
+                 '                        &e.operation_id,\n'
+                 '                        name,\n'
+                 '                        schema,\n'
+                 '                        dependencies,\n'
+                 '                    )?;\n'
+                 '                }\n'
+                 '                _ => (),\n'
+                 '            }\n')
+
+
+def _flat_dispatch(scalar_arms, clash_arm):
+    """The same dispatch as one flat match on (metadata, map lookup)."""
+    return ('            let name = match &param.metadata {\n'
+            '                ApiEndpointParameterMetadata::Path(name) | ApiEndpointParameterMetadata::Query(name) => name,\n'
+            '                _ => continue,\n'
+            '            };\n'
+            '            match (&param.metadata, path_segments.get(name)) {\n'
+            '                ' + scalar_arms + ' => {\n'
+            '                    type_is_scalar(&e.operation_id, name, schema, dependencies)?;\n'
+            '                }\n'
+            '                (ApiEndpointParameterMetadata::Path(_), Some(SegmentOrWildcard::Wildcard)) => {\n'
+            '                    type_is_string_enum(&e.operation_id, name, schema, dependencies)?;\n'
+            '                }\n'
+            '                (ApiEndpointParameterMetadata::Path(_), None) => panic!("all path variables should be accounted for"),\n'
+            + clash_arm +
+            '                _ => (),\n'
+            '            }\n')
+
+
+_FLAT_CLASH_ARM = ('                (ApiEndpointParameterMetadata::Query(_), Some(_)) => {\n'
+                   '                    return Err(format!("the parameter \'{}\' is specified for both query and path parameters", name));\n'
+                   '                }\n')
+_THREE_VALIDATIONS = '            s.validate_tags(&e)?;\n            s.validate_path_parameters(&e)?;\n            s.validate_named_parameters(&e)?;\n'
+
 SELFTEST = [
     # ---------------------------------------------------------------- mutants
     {"name": "named-parameters-not-validated", "kind": "mutant", "expect": ["C02.R1"],
@@ -1288,6 +1359,15 @@ SELFTEST = [
     {"name": 'scalar-check-other-type-predicate', "kind": "mutant", "expect": ['C02.R5b'],
      "edits": [(TU, '                schema,\n                dependencies,\n                type_check,\n            )\n            .is_ok()\n        }),', '                schema,\n                dependencies,\n                |_| true,\n            )\n            .is_ok()\n        }),')],
      "why": 'the recursive check of oneOf alternatives uses a predicate that accepts every instance type'},
+    {"name": 'flat-dispatch-accepts-query-clash', "kind": "mutant", "expect": ['C02.R5'],
+     "edits": [(AD, _VNP_DISPATCH, _flat_dispatch('(ApiEndpointParameterMetadata::Path(_), Some(SegmentOrWildcard::Segment)) | (ApiEndpointParameterMetadata::Query(_), _)', ''))],
+     "why": 'the dispatch written as one flat match on (metadata, path_segments.get(name)) in which the Query arm no longer looks at the lookup: a query parameter named like a path variable is accepted'},
+    {"name": 'flat-dispatch-wildcard-falls-into-scalar-arm', "kind": "mutant", "expect": ['C02.R5'],
+     "edits": [(AD, _VNP_DISPATCH, _flat_dispatch('(ApiEndpointParameterMetadata::Path(_), Some(_)) | (ApiEndpointParameterMetadata::Query(_), None)', _FLAT_CLASH_ARM))],
+     "why": 'flat match whose first arm takes every Path parameter that is a template variable, so wildcard parameters are checked as scalars (the string-enum arm is dead)'},
+    {"name": 'validation-chain-recovers-from-error', "kind": "mutant", "expect": ['C02.R1'],
+     "edits": [(AD, _THREE_VALIDATIONS, '            s.validate_tags(&e)\n                .or_else(|_| s.validate_path_parameters(&e))\n                .and_then(|()| s.validate_named_parameters(&e))?;\n')],
+     "why": 'the three validations chained with combinators, but or_else instead of and_then: an endpoint violating the tag policy is registered when its path parameters are fine'},
     # ---------------------------------------------------------------- benign variants
     {"name": "benign-negated-equality", "kind": "benign",
      "edits": [(RT, "if *new_varname != *varname {\n                                // Don't allow people", "if !(*new_varname == *varname) {\n                                // Don't allow people")],
@@ -1367,4 +1447,14 @@ SELFTEST = [
     {"name": "benign-endpoint-rebound", "kind": "benign",
      "edits": [(AD, "            s.router.insert(e);", "            let validated = e;\n            s.router.insert(validated);")],
      "why": "behaviour-preserving: the validated endpoint moved through a local"},
+    {"name": 'benign-validations-chained-with-and_then', "kind": "benign",
+     "edits": [(AD, _THREE_VALIDATIONS, '            s.validate_tags(&e)\n                .and_then(|()| s.validate_path_parameters(&e))\n                .and_then(|()| s.validate_named_parameters(&e))?;\n')],
+     "why": 'behaviour-preserving: three sequential `?` written as one and_then chain (decided on the normalised view, where and_then is the match it abbreviates)'},
+    {"name": 'benign-parameter-dispatch-as-flat-tuple-match', "kind": "benign",
+     "edits": [(AD, _VNP_DISPATCH, _flat_dispatch('(ApiEndpointParameterMetadata::Path(_), Some(SegmentOrWildcard::Segment)) | (ApiEndpointParameterMetadata::Query(_), None)', _FLAT_CLASH_ARM))],
+     "why": 'behaviour-preserving: the nested match metadata { Path => match get(name) {..}, Query => if contains_key(name) .. } written as one flat match on the tuple '
+            '(metadata, get(name)) with the two type_is_scalar arms merged by an or-pattern: the same cells, read off path conditions instead of the nesting of switches'},
+    {"name": 'benign-query-clash-test-by-lookup', "kind": "benign",
+     "edits": [(AD, "if path_segments.contains_key(name) {", "let clashes = path_segments.get(name).is_some();\n                    if clashes {")],
+     "why": 'behaviour-preserving: contains_key(name) written as get(name).is_some() bound to a named flag'},
 ]
